@@ -1,4 +1,4 @@
-"""C05 -- moving definitions and modules keeps importers working (structural clauses R05.1-R05.20)."""
+"""C05 -- moving definitions and modules keeps importers working (structural clauses R05.1-R05.23)."""
 from __future__ import annotations
 
 import ast
@@ -32,6 +32,9 @@ EXPLANATION = (
 )
 EXPLANATION += " R05.19: in the anchored modules and the shared text utilities no source text is cut with str.splitlines() (it breaks at form feed, \x1c-\x1e, \x85, U+2028/9; rope's and the ast's line numbers count \n only)."
 EXPLANATION += " R05.20 (=R07.19): the used-name finder that decides which imports travel with moved code visits every non-body child of a def / class in the enclosing scope."
+EXPLANATION += " R05.21: inside the loop over the files of a refactoring no handler swallows an error (a file is never silently left out of a multi-file change)."
+EXPLANATION += " R05.22: the text of a moved global is cut out as it stands, not re-indented (a conditionally defined global is not lifted out of its block)."
+EXPLANATION += " R05.23 (=R01.24): no strip / lstrip / rstrip call in rope has an argument that spells an affix (module names are cut with slices / removesuffix)."
 ASSUMPTIONS = [
     "helper summaries: self.m() resolves through the class MRO; x.y.m() is attributed to every method m of the analysed modules",
     "ChangeSet.do applies changes in insertion order (decided under C10/C11)",
@@ -228,6 +231,13 @@ def check(ctx, res) -> None:
     from .c07 import header_children_rule
 
     header_children_rule(ctx, res, "R05.20")
+    from .common import per_file_no_skip_rule as _pf
+
+    _pf(ctx, res, "R05.21", ('rope.refactor.move', 'rope.refactor.rename', 'rope.refactor.topackage'))
+    _moving_text_is_not_reindented_rule(ctx, res)
+    from .common import affix_strip_rule
+
+    affix_strip_rule(ctx, res, "R05.23")
 
 
 def _check_main(ctx, res) -> None:
@@ -730,18 +740,25 @@ def _shared(ctx, res) -> None:
         call_name(c) in ("_rename_module", "MoveResource") for c in calls_in(nd.ast))]
     if not movers:
         raise AnalysisError("anchor=Rename.get_changes: the step that moves the renamed module's file not found")
-    tests = []
+    tests = []  # (isinstance call, the function whose locals it may name)
     for nd in movers:
-        for t, pol in rcfg.guards(nd.id):
+        for t, pol in common.plain_guards(rcfg, nd.id):
             if pol:
-                tests += [y for y in ast.walk(t) if isinstance(y, ast.Call) and call_name(y) == "isinstance" and len(y.args) == 2]
+                srcs = [t] + (common.flag_sources(rcfg, rm_node, t.id) if isinstance(t, ast.Name) else [])
+                tests += [(y, rm_node) for e in srcs for y in ast.walk(e) if isinstance(y, ast.Call) and call_name(y) == "isinstance" and len(y.args) == 2]
+                # a predicate of the class with several statements (`if not isinstance(obj, AbstractModule): return False` ...): its body is read
+                for c in ast.walk(t):
+                    if isinstance(c, ast.Call) and is_self_attr(c.func) and rm.cls is not None:
+                        pm = idx.find_method(rm.cls.qualname, c.func.attr)
+                        if pm is not None:
+                            tests += [(y, pm.node) for y in ast.walk(pm.node) if isinstance(y, ast.Call) and call_name(y) == "isinstance" and len(y.args) == 2]
     ok12 = False
     why = "the move of the file is not guarded by any isinstance test"
-    for t in tests:
+    for t, owner in tests:
         on_object = any(isinstance(y, ast.Call) and call_name(y) == "get_object" for y in ast.walk(t.args[0]))
         if not on_object and isinstance(t.args[0], ast.Name):
             on_object = any(isinstance(x, ast.Assign) and isinstance(x.targets[0], ast.Name) and x.targets[0].id == t.args[0].id
-                            and any(isinstance(y, ast.Call) and call_name(y) == "get_object" for y in ast.walk(x.value)) for x in walk_local(rm_node))
+                            and any(isinstance(y, ast.Call) and call_name(y) == "get_object" for y in ast.walk(x.value)) for x in walk_local(owner))
         ks = t.args[1].elts if isinstance(t.args[1], ast.Tuple) else [t.args[1]]
         quals = [idx.resolve(rm.unit.modname, k) for k in ks]
         covers = base in quals or {"rope.base.pyobjects.PyModule", "rope.base.pyobjects.PyPackage"} <= set(quals) or \
@@ -809,3 +826,22 @@ def _shared(ctx, res) -> None:
                                     "is walking: `from pkg import mod as m` becomes `from pkg2 import mod` while the client still calls `m.f()` (NameError)",
                                     function=f.qualname)
     res.floor("R05.16", "imports rebuilt pair by pair", n16, 1)
+
+
+def _moving_text_is_not_reindented_rule(ctx, res) -> None:
+    """R05.22: a global that is moved is a TOP-LEVEL definition: its text is cut out of the module as it stands.  A definition that sits
+    inside a module-level `if` / `try` (a platform switch, an optional speed-up with a second variant in the `else` arm) is defined
+    conditionally; lifted out of its block it becomes unconditional, the names of its block come back as imports that fail when the
+    block did not run, and the variant that stays behind is rewritten as if it were the moved one.  rope refuses such a move because
+    the indented text does not parse on its own.  The function that cuts the moving text out therefore does not re-indent it (no
+    `fix_indentation` / `indent_lines` / `textwrap.dedent` on the way)."""
+    from .common import with_private_helpers
+    idx = ctx.idx
+    f = idx.need_func("rope.refactor.move.MoveGlobal._get_moving_element")
+    fam = with_private_helpers(idx, f, depth=2)
+    bad = [(g, c) for g in fam for c in calls_in(g.node) if call_name(c) in ("fix_indentation", "indent_lines", "dedent", "get_body")]
+    res.add("R05.22", "MoveGlobal._get_moving_element|moving-text-is-taken-as-written", not bad, f.where if not bad else f"{bad[0][0].unit.rel}:{bad[0][1].lineno}",
+            "the text of the moved global is cut out as it stands" if not bad else
+            f"`{ast.unparse(bad[0][1])[:60]}` re-indents the text of the moved global: a definition inside a module-level `if` / `try` block is accepted and lifted out of its condition -- "
+            "names of its block come back as `from source import NAME` (ImportError when the block did not run), and with a second variant in the `else` arm the remaining "
+            "`def` header is rewritten (`def util.checksum(data):`), so the source module no longer compiles", function=f.qualname)
